@@ -926,6 +926,14 @@ def literal_sweep(tier="quick"):
     for doc in ('"""it\'s a doc"""', '"""say "hi" there"""', '"""café 日本"""', "'single quoted doc'", '"plain \'doc\'"', '"""a\\\\nb"""', '"""tab\\there"""',
                 '"""\nmulti\n  it\'s "quoted"\n"""', '"""braces {x} # not a comment"""', "'''triple single \"x\"'''", '"ends with quote\\""'):
         out.append(("sweep:doc:%d" % len(out), doc + "\nconst AFTER: int = 1\n"))
+    # docstring EDGE lattice (added after seed C09-4): what stands directly after the opening and directly before the closing
+    # quotes — nothing, a blank, an escaped quote, a quote followed by a blank, a line break — around one-line and multi-line text
+    starts = ["", " ", '\\"', '\\" ', "\n"]
+    ends = ["", " ", '\\"', '" ', '\\" ', ' \\"', "\n", '\\"\n', '" \n']
+    for st in starts:
+        for body in ("a", 'x "q" y', "l1\nl2"):
+            for en in ends:
+                out.append(("sweep:docedge:%d" % len(out), '"""' + st + body + en + '"""' + "\nconst AFTER: int = 1\n"))
     return out
 
 
